@@ -57,10 +57,15 @@ def recv(k):
         s.simplify()
         s.assign_str('a bcd')
         return s
+    if k == 11:
+        s = AnsiString('abcd')
+        s.apply_formatting(['bold', 'red'], 1, 4)
+        s.apply_formatting('blue', 2, 3, topmost=False)
+        return s
     return None
 
 
-N_RECV = 11
+N_RECV = 12
 
 
 def snap9(s):
@@ -256,7 +261,7 @@ def h_receivers(r: int):
 
 
 BOUNDS = {
-    'quick': '%d operation groups (the whole public surface incl. parsing helpers) x 5 of %d reachable receivers (plain, overlapping, sliced, centered+concatenated, equal seams, '
+    'quick': '%d operation groups (the whole public surface incl. parsing helpers) x 6 of %d reachable receivers (plain, overlapping, sliced, centered+concatenated, equal seams, '
              'parsed, applied beyond the end + invalid setting + removed, empty, matched/removed/replaced, simplified+assigned) x 4x2 string arguments (incl. empty; 4x3 for replace, so that the replacement can contain the pattern) x '
              'up to 6 widths (incl. 0, negative, 10000 for center/zfill) x up to 4 settings/specs; range/index arguments from (-7,-1,0,2,99) (thorough: ALL integers / None where '
              'the operation does not realise them, full palettes); after an error: receiver unchanged; after success: 8 renderings, every index, slices, concatenations, simplify, copy under WITH_ASSERTIONS; '
@@ -299,7 +304,7 @@ def obligations(tier):
         if not d.get('q'):
             fixed['q'] = 0
         if tier == 'quick':
-            fq = dict(fixed, rset=(2, 4, 7, 9, 8), nx=4, ny=3 if name == 'replace' else 2, ints=(-7, -1, 0, 2, 99), wmax=min(fixed['wmax'], 2) if name not in ('center', 'zfill') else fixed['wmax'],
+            fq = dict(fixed, rset=(2, 4, 7, 9, 8, 11), nx=4, ny=3 if name == 'replace' else 2, ints=(-7, -1, 0, 2, 99), wmax=min(fixed['wmax'], 2) if name not in ('center', 'zfill') else fixed['wmax'],
                       qmax=min(fixed['qmax'], 3))
             if name == 'ansistr':
                 for xi in range(3):
@@ -307,7 +312,7 @@ def obligations(tier):
                                   bounds='operation group %s on 5 receivers, 5 integers' % name, kinds=KINDS))
                 continue
             obs.append(Ob('op/%s' % name, h_op, fq, need=('success',), budget=900, per_path=30,
-                          bounds='operation group %s on 5 receivers, 3x2 strings, 5 integers' % name, kinds=KINDS))
+                          bounds='operation group %s on 6 receivers, 4x2 strings, 5 integers' % name, kinds=KINDS))
         else:
             f2 = dict(fixed, lite=True, xi=1, yi=2, wi=min(1, d.get('w', 0)), qmax=min(1, d.get('q', 0)), ints=(-1, 0, 2))
             obs.append(Ob('op2/%s' % name, h_op, f2, need=('success',), budget=1500, per_path=30,
